@@ -1,0 +1,11 @@
+//! Simulation-only replacement of `time.rs` (compiled under `--cfg excsn_fibre_verif`, supplied by
+//! the verification harness' shadow manifest): the cache epoch clock is the simulator's virtual
+//! clock, so expiry can be driven without sleeping.
+
+use std::time::Duration;
+
+/// A helper to get the current time as a `Duration` since the epoch.
+#[inline]
+pub(crate) fn now_duration() -> Duration {
+  fibre_verif_rt::time::now_duration()
+}
